@@ -51,6 +51,15 @@ def cases(tier, rng):
             labs2 = ["I%d" % s_ for s_ in range(1, n + 1)] + ["P", "A1.7", "W1", "P:%d~Y" % pos, "P:0~Y", "P", "P"]
             out.append("y%d fq / %s / D" % (k, " / ".join(labs2)))
             k += 1
+    # many registered streams (more than any plausible per-call budget) with an item behind them: no call may park before
+    # every queued event has been looked at
+    for n in (33, 40, 70, 100, 257):
+        ins = " / ".join("I%d" % i for i in range(1, n + 1))
+        for polls in (1, 2, 3):
+            out.append("n%d fq / %s / %s / A%d.1 / D" % (k, ins, " / ".join(["P"] * polls), n))
+            k += 1
+            out.append("n%d fq / %s / A%d.1 / A%d.2 / %s / D" % (k, ins, n, n // 2, " / ".join(["P"] * polls)))
+            k += 1
     # a key that has more than one event queued (it delivered, its event was re-queued, and a new connection under the same
     # identity replaced its stream) followed by other streams with items: one call must not give up before the queue is empty
     for n in (2, 3):
